@@ -7,8 +7,9 @@ cd /repo || exit 2
 if [ -n "$(git status --porcelain --untracked-files=no)" ]; then echo "/repo not clean"; exit 2; fi
 git apply /verif/mutants/$NAME/patch.diff || { echo "patch does not apply"; exit 2; }
 go build ./... && go test -vet=off -count=1 ./sdf ./render ./vec/v3 >/dev/null 2>&1; SUITE=$?
+cp /verif/evidence/$ID.json /verif/.work/evidence.keep.$ID.json 2>/dev/null
 /verif/vcheck $ID $TIER > /verif/.work/mutant.$NAME.$ID.log 2>&1; RC=$?
 git -C /repo checkout -- .
 echo "mutant=$NAME check=$ID suite_exit=$SUITE check_exit=$RC $(grep -c '^VIOLATION' /verif/.work/mutant.$NAME.$ID.log) violation lines"
 grep '^VIOLATION\|HARNESS' /verif/.work/mutant.$NAME.$ID.log | cut -c1-220 | head -3
-git -C /verif checkout -- evidence/$ID.json 2>/dev/null
+[ -f /verif/.work/evidence.keep.$ID.json ] && mv /verif/.work/evidence.keep.$ID.json /verif/evidence/$ID.json
